@@ -153,8 +153,15 @@ fn maybe_inject() {
     IN_INJECT.with(|c| c.set(false));
 }
 
+thread_local! {
+    /// the injected closure runs right AFTER the victim's k-th count operation instead of right before it
+    pub static INJECT_AFTER: std::cell::Cell<bool> = const { std::cell::Cell::new(false) };
+}
+
 fn pre(_e: &hook::Event) {
-    maybe_inject();
+    if !INJECT_AFTER.with(|c| c.get()) {
+        maybe_inject();
+    }
     if SERIALISE.load(O::Relaxed) {
         sched_point();
         let k = YIELD_EVERY.load(O::Relaxed);
@@ -184,6 +191,9 @@ fn post(e: &hook::Event, seen: usize) {
         LOG.unlock();
     } else {
         LOG.push(ev);
+    }
+    if INJECT_AFTER.with(|c| c.get()) {
+        maybe_inject();
     }
 }
 
